@@ -15,11 +15,22 @@ HARNESS = os.path.join(VERIF, "harness")
 QFLAGS = "-Q ../base FlacBase -Q . FlacMeta"
 
 
-def proof_stage(chk, requires, theorems, files):
+def proof_stage(chk, requires, theorems, files, e2e_theorems=None):
     gen = os.path.join(VERIF, "tools", "gen_metadata.py")
     steps = ["python3 %s/tools/gen_crc.py %s %s/GenCrc.v" % (VERIF, vlib.REPO, BASE)]
     if os.path.exists(gen):
         steps.append("python3 %s %s %s/GenMeta.v" % (gen, vlib.REPO, AREA))
+    if e2e_theorems:
+        # the property also claims theorems of the composed development coq/e2emeta: writers' metadata model x this area's
+        cq = lambda d: os.path.join(VERIF, "coq", d)
+        steps.append("python3 %s/tools/gen_stream.py %s %s/GenStream.v" % (VERIF, vlib.REPO, cq("codec")))
+        steps.append("python3 %s/tools/gen_writers.py %s %s/GenWriters.v" % (VERIF, vlib.REPO, cq("writers")))
+        return vlib.proof_stage(
+            chk, coq_dirs=[BASE, cq("codec"), cq("writers"), cq("readers"), cq("e2e"), AREA, cq("e2emeta")], build_dir=cq("e2emeta"),
+            qflags="-Q ../base FlacBase -Q ../codec FlacCodec -Q ../writers FlacWriters -Q ../readers FlacReaders -Q ../e2e FlacE2E -Q ../metadata FlacMeta -Q . FlacE2EMeta",
+            requires=["Coq.Lists.List", "Coq.NArith.NArith"] + requires + ["FlacE2EMeta.MetaBridge", "FlacE2EMeta.Props_E2EMeta"],
+            theorems=theorems + e2e_theorems,
+            obligation_files=[(AREA, files), (cq("e2emeta"), vlib.coq_files(cq("e2emeta")))], gen_steps=steps)
     return vlib.proof_stage(
         chk, coq_dirs=[BASE, AREA], build_dir=AREA, qflags=QFLAGS,
         requires=["Coq.Lists.List", "Coq.NArith.NArith"] + requires, theorems=theorems,
